@@ -209,7 +209,8 @@ class Run:
             q = p       # the public call runs on the live paragraph
             raised = self.single(p, st, lambda pre: 'OInsertRange %s %s (%d) %s' % (ev1, ev2, st.get('pos', 0),
                                  tl.coq_spans(tl.spans_oracle(st['rx'], pre, main=True))), lambda: pub(kw), hid, si)
-            if not raised and st.get('pos', 0) >= 0:
+            fresh = not any(e[0] == 'O' and e[2] in (m1[1], m2[1]) for e in tl.flat(pre0))   # marks identifiable by their attributes
+            if not raised and st.get('pos', 0) >= 0 and fresh:
                 ms = [t[x:y] for t, sp in zip(tl.texts_main(pre0), tl.spans_oracle(st['rx'], pre0, main=True)) for (x, y) in sp]
                 if st.get('pos', 0) < len(ms):
                     post = self.abs(p)
@@ -494,9 +495,9 @@ def run(tier, seed, replay=None):
     coverage = dict(
         trusted_base=["lxml (text/tail/insert/addnext/remove semantics as exercised; XPath descendant::text())",
                       "Python re: finditer/findall give sorted, non-overlapping, in-range spans; the harness computes them per text node of the abstracted pre-state and hands them to the model",
-                      "modelled in Tree.v: paragraph.py _by_regex_offset/set_span/set_link, element.py _insert/_insert_find_text/_search_*_position/delete/_strip_tags/strip_tags/strip_elements/__append/_add_text; Span(match) through WS.append_plain_text"],
+                      "modelled in Tree.v: paragraph.py _by_regex_offset/set_span/set_link, element.py _insert (main text)/_insert_range/_insert_find_text/_search_*_position/delete/_strip_tags/strip_tags (also on a stripped element)/strip_elements/__append/_add_text; Span(match) through WS.append_plain_text"],
         evaluations=len(terms), distinct_nontrivial=len(nontrivial),
-        rule="histories: generated paragraph tree (text, nested spans/links, text:s/tab/line-break, marks, notes, annotations; every 4th from the edge stream: raw double spaces, negative/far offsets) then 1-3 insertions of mixed kinds (offset/length in and beyond range, 23 regexes without empty matches, position/before/after/content/(a,b)) then every removal on a clone (remove_spans, remove_links, remove_span(s), remove_link, delete(child, keep_tail), child.delete() for every element). One evaluation = one single model step checked by Coq from the abstracted pre-state. non-trivial = the step changed the tree or raised; distinct = distinct (operation, pre-state)",
+        rule="histories: generated paragraph tree (text, nested spans/links, text:s/tab/line-break, marks, notes, annotations; every 4th from the edge stream: raw double spaces, negative/far offsets) then 1-3 insertions of mixed kinds (offset/length in and beyond range, 23 regexes without empty matches, position/before/after/content/(a,b)) then every removal on a clone (remove_spans, remove_links, remove_span(s), remove_link, Span.remove_spans() on inner spans, delete(child, keep_tail), child.delete() for every element). One evaluation = one single model step checked by Coq from the abstracted pre-state. non-trivial = the step changed the tree or raised; distinct = distinct (operation, pre-state)",
         samples=[dict(xml=hs[i]['xml'], steps=all_steps[i][:4]) for i in range(ncorpus, min(len(hs), ncorpus + 3))],
         histories=len(hs), corpus_cases=ncorpus, operation_histogram=R.hist, codes=counts,
         fidelity_divergences=counts.get(9, 0), out_of_domain=counts.get(8, 0), known_findings_reobserved=seen_keys,
